@@ -267,6 +267,37 @@ def run_case(case):
             met_all.add((k, v))
         return True
 
+    # a second walker with its own fog and its own frontier cache walks ANOTHER (static) trie,
+    # one step after each step of the first: two walks alive at the same time must not mix
+    t2 = impl("construct", HexaryTrie, {})
+    model2 = {}
+    for i, k in enumerate(sorted(model) + [b"\x12\x34\x77", b"\x00"]):
+        v = b"second-" + bytes([i]) * (1 + 35 * (i % 2))
+        impl("set-never-raises", t2.set, k, v)
+        model2[k] = v
+    w2 = {"fog": impl("fog", HexaryTrieFog), "cache": impl("cache", TrieFrontierCache), "met": {}}
+
+    def second_walk_step():
+        r = impl("nearest_unknown", w2["fog"].nearest_unknown, (), allowed=(PerfectVisibility,))
+        if isinstance(r, Raised):
+            return
+        prefix = _tt(r)
+        entry = impl("cache.get", w2["cache"].get, prefix, allowed=(KeyError,))
+        if isinstance(entry, Raised):
+            node = impl("walk-traverse", t2.traverse, prefix, allowed=(TraversedPartialPath,))
+        else:
+            node = impl("walk-traverse_from", t2.traverse_from, entry[0], entry[1], allowed=(TraversedPartialPath,))
+        if isinstance(node, Raised):
+            node = node.exc.simulated_node
+        subs = [_tt(s) for s in node.sub_segments]
+        w2["fog"] = impl("walk-explore", w2["fog"].explore, prefix, subs)
+        if subs:
+            impl("cache.add", w2["cache"].add, prefix, node, subs)
+        else:
+            impl("cache.delete", w2["cache"].delete, prefix)
+        if node.value:
+            w2["met"][bytes_of_nibbles(prefix + _tt(node.suffix))] = bytes(node.value)
+
     last_query = ("unknown", [])
     limit_hit = False
     for muts, query in case["schedule"]:
@@ -275,6 +306,7 @@ def run_case(case):
         if stable is None:
             stable = dict(model)
         last_query = query
+        second_walk_step()
         if not walk_step(query):
             break
         expect("walk-terminates-within-bound", steps <= bound(),
@@ -282,6 +314,7 @@ def run_case(case):
     if stable is None:
         stable = dict(model)
     while True:
+        second_walk_step()
         if not walk_step(last_query):
             break
         if steps > bound():
@@ -290,6 +323,10 @@ def run_case(case):
     expect("walk-terminates-within-bound", not limit_hit,
            lambda: f"walk still not complete after {steps} explore steps (bound {bound()})")
     expect("fog-complete-at-end", impl("is_complete", lambda: fog.is_complete) is True, "fog not complete at the end")
+    for _ in range(4 * len(model2) + 8):
+        second_walk_step()
+    expect_eq("static-walk-meets-exact-contents", w2["met"], model2,
+              "pairs met by a second walker (own fog and cache, other trie) that ran interleaved with the first")
 
     if effective_mutations == 0:
         expect_eq("static-walk-meets-exact-contents", dict(met), dict(model), "pairs met by the walk of an unchanging trie")
